@@ -39,6 +39,7 @@ MCDocs == [
   Ab1 |-> D("A", {"kA"}, {"kA"}, <<"B">>, {S("s1", "x")}),
   Ab2 |-> D("A", {"kA"}, {"kA"}, <<"B">>, {S("s2", "y")}),
   Ax  |-> D("A", {"kA", "k3"}, {"kA", "k3"}, <<>>, {}),                      \* the attacker's key k3 added
+  Akb |-> D("A", {"kA", "kB"}, {"kA", "kB"}, <<>>, {}),                      \* B's key listed as a key of A
   Ad  |-> D("A", {}, {}, <<>>, {}),
   Ar  |-> D("A", {"kA"}, {"kA"}, <<>>, {S("s4", "r")}),                      \* attempt to revive
   B0  |-> D("B", {"kB"}, {"kB"}, <<>>, {}),
@@ -99,6 +100,7 @@ MCT == [
   uA1   |-> U("A", 1, 6, <<"cA">>, "A1", "kA", "A", "kA"),
   uAx   |-> U("A", 1, 7, <<"cA">>, "Ax", "k3", "A", "k3"),                       \* stranger
   uAxB  |-> U("A", 1, 8, <<"cA", "cB">>, "Ax", "kB", "B", "kB"),                 \* B is nobody's controller
+  uAkB  |-> U("A", 1, 30, <<"cA", "cB">>, "Akb", "kB", "B", "kB"),                \* resolvable foreign key that the PROPOSED document lists
   uAkid |-> U("A", 1, 9, <<"cA">>, "Ax", "k3", "A", "kA"),                       \* kid names kA, signed by k3
   uA2   |-> U("A", 2, 10, <<"uA1">>, "A2", "kA", "A", "kA"),
   uA3   |-> U("A", 3, 11, <<"uA2">>, "A3", "kA", "A", "kA"),
@@ -164,9 +166,9 @@ MCScen == [
 ]
 
 Defective(df) == df # "none"
-MainTx == {"cA", "cB", "cC", "cAx", "cA2", "uA1", "uAx", "uAxB", "uAkid", "uA2", "uA3", "uAk2", "uAk2o", "uAb", "uAbB", "uAbA",
+MainTx == {"cA", "cB", "cC", "cAx", "cA2", "uA1", "uAx", "uAxB", "uAkB", "uAkid", "uA2", "uA3", "uAk2", "uAk2o", "uAb", "uAbB", "uAbA",
            "dB", "uAbBd", "uBc", "dC", "uAbBc", "uBa", "uAbBa", "dA", "uAr", "uAnf", "uB2", "uB3", "uAbK2"}
-QuickTx == {"cA", "cB", "cAx", "cA2", "uA1", "uAx", "uAxB", "uAkid", "uA2", "uA3", "uAk2", "uAk2o", "uAb", "uAbB", "uAbA", "dB",
+QuickTx == {"cA", "cB", "cAx", "cA2", "uA1", "uAx", "uAxB", "uAkB", "uAkid", "uA2", "uA3", "uAk2", "uAk2o", "uAb", "uAbB", "uAbA", "dB",
             "uAbBd", "dA", "uAr", "uAnf"}
 
 ChainTx == {"h1", "h2", "h3", "h4", "h5", "h6", "h7", "g1", "g1s", "g2", "g3", "g4", "h7d"}
@@ -179,7 +181,7 @@ ASSUME \A e \in DOMAIN MCT : (MCT[e].doc \in DOMAIN MCDocs /\ MCDocs[MCT[e].doc]
 ASSUME PrintT(ToJson([tables |-> [T |-> MCT, Docs |-> MCDocs, Scen |-> MCScen, Thumb |-> MCThumb, Rank |-> MCRank]]))
 
 \* ---- behaviour generation -------------------------------------------------------------------------------
-StoreDone == Mode = "store" /\ arrived = Scen[sc].ev /\ dups = Scen[sc].dup
+StoreDone == Mode = "store" /\ arrived = Scen[sc].ev /\ dups = Scen[sc].dup + ExtraDup
 \* every complete arrival order (generation configs have no VIEW, so every order is a distinct state)
 EmitOrder == (Hist /\ StoreDone) => PrintT(ToJson([sc |-> sc, steps |-> hist,
                                             final |-> [d \in {x \in DIDs : latest[x] > 0} |-> meta[d]]]))
